@@ -165,6 +165,17 @@ CHECKS.update({
              "interacting lineages, turbidostat and custom splitters are outside the claim."),
 })
 
+
+CHECKS.update({
+    "C17": dict(level="model_checking", design="3/C17",
+        text="The hand-written __getstate__/__setstate__/__reduce__ methods of Model, LineageModel, BinaryTerm (4 subclasses), "
+             "Schnitz, Lineage, ExperimentalLineage, VolumeCellState, LineageVolumeCellState and InferenceSetup are executed from "
+             "source as pickle would call them; every attribute declared for the class in the parsed sources must survive, C-level "
+             "vectors must be rebuilt in order, restored terms / rates / rules are compared symbolically (z3, all states).",
+        note="pickle's own transport and Cython's generated __reduce_cython__ (propensity, delay, rule, leaf-term classes) are not "
+             "source and are only covered by a static precondition (no pointer-typed attributes, no __cinit__)."),
+})
+
 NOT_YET = "check not built yet in this revision of /verif (work in progress; see DESIGN.md section 3 for the planned obligations)"
 
 
